@@ -200,6 +200,206 @@ theorem InvA.setHold {v : PV} {X X' : Nat → Nat} (hI : InvA v X) {c n x : Nat}
     simp only [Option.some.injEq] at h1
     split at h1 <;> rename_i hoo <;> simp only [hoo, if_true, if_false] at h3 <;> omega
 
+/-! ### taking payments in -/
+
+def take (v : PV) (c : Nat) : List (Nat × Nat) → Option PV
+  | [] => some v
+  | (n, a) :: rest => do
+      req (a ≠ 0)
+      req ((v.attrs n).isSome)
+      let h ← sub? (v.hold c n) a
+      take (v.setHold c n h) c rest
+
+/-- the payments leave the caller's account: the holdings shrink by the payments, the recorded
+    owners' totals now exceed their positions by exactly the payments recorded as theirs -/
+theorem take_inv : ∀ (l : List (Nat × Nat)) {v v0 : PV} {X : Nat → Nat} {c : Nat},
+    InvA v X → c ∈ v.users → v.take c l = some v0 →
+    InvA v0 (fun o => X o + payOwned v.attrs o l) ∧ v0.totalHeld + paySum l = v.totalHeld ∧
+      ∃ h', v0 = { v with hold := h' } := by
+  intro l
+  induction l with
+  | nil =>
+    intro v v0 X c hI _ h
+    simp only [take, Option.some.injEq] at h
+    subst h
+    exact ⟨hI.congr (fun o => by simp [payOwned]), by simp [paySum], v.hold, rfl⟩
+  | cons p rest ih =>
+    intro v v0 X c hI hc h
+    obtain ⟨n, a⟩ := p
+    simp only [take, Option.bind_eq_bind, Option.bind_eq_some_iff, req_eq_some, sub?_eq_some] at h
+    obtain ⟨_, _, _, hsome, h1, ⟨hle, rfl⟩, h2⟩ := h
+    obtain ⟨att, hat⟩ := Option.isSome_iff_exists.mp hsome
+    have hn : n ≤ v.lastNonce := by
+      by_contra hlt
+      have := hI.fresh n (by omega)
+      rw [hat] at this; cases this
+    obtain ⟨A1, T1⟩ := hI.setHold (X' := fun o => X o + (if att.owner = o then a else 0))
+      (x := v.hold c n - a) hc hn hat (by intro o; split <;> omega)
+    obtain ⟨A2, T2, h', rfl⟩ := ih A1 hc h2
+    refine ⟨A2.congr (fun o => ?_), ?_, h', rfl⟩
+    · show X o + (if att.owner = o then a else 0) + payOwned v.attrs o rest = _
+      simp only [payOwned, hat, Option.map_some, Option.some.injEq]
+      omega
+    · simp only [paySum]
+      omega
+
+/-! ### `check_and_update_user_farm_position` -/
+
+def inc (v : PV) (u a : Nat) : PV := { v with userTotal := upd v.userTotal u (v.userTotal u + a) }
+def dec (v : PV) (u a : Nat) : PV := { v with userTotal := upd v.userTotal u (v.userTotal u - a) }
+
+def check (v : PV) (user : Nat) : List (Nat × Nat) → Option PV
+  | [] => some v
+  | (n, a) :: rest => do
+      let att ← v.attrs n
+      check (if att.owner ≠ user then (v.dec att.owner a).inc user a else v) user rest
+
+theorem inc_dec_total (v : PV) {owner user : Nat} (a o : Nat) (hne : owner ≠ user) :
+    ((v.dec owner a).inc user a).userTotal o =
+      if o = user then v.userTotal user + a else if o = owner then v.userTotal owner - a
+      else v.userTotal o := by
+  simp only [inc, dec, upd]
+  by_cases h1 : o = user
+  · subst h1; simp [Ne.symm hne]
+  · by_cases h2 : o = owner
+    · subst h2; simp [h1]
+    · simp [h1, h2]
+
+/-- every payment recorded for somebody else moves from that owner's total to `user`'s; the
+    truncated subtraction is exact because the owner's total contains the payment -/
+theorem check_total : ∀ (l : List (Nat × Nat)) {v v1 : PV} {Y : Nat → Nat} {user : Nat},
+    v.check user l = some v1 → (∀ o, v.userTotal o = Y o + payOwned v.attrs o l) →
+    (∃ t, v1 = { v with userTotal := t }) ∧
+      ∀ o, v1.userTotal o = Y o + (if o = user then paySum l else 0) := by
+  intro l
+  induction l with
+  | nil =>
+    intro v v1 Y user h hY
+    simp only [check, Option.some.injEq] at h
+    subst h
+    exact ⟨⟨v.userTotal, rfl⟩, fun o => by rw [hY o]; simp [payOwned, paySum]⟩
+  | cons p rest ih =>
+    intro v v1 Y user h hY
+    obtain ⟨n, a⟩ := p
+    simp only [check, Option.bind_eq_bind, Option.bind_eq_some_iff] at h
+    obtain ⟨att, hat, h2⟩ := h
+    simp only [payOwned, hat, Option.map_some, Option.some.injEq] at hY
+    by_cases ho : att.owner = user
+    · rw [if_neg (by simpa using ho)] at h2
+      obtain ⟨t, e⟩ := ih (Y := fun o => Y o + (if o = user then a else 0)) h2 (by
+        intro o
+        have := hY o
+        rw [ho] at this
+        by_cases hou : o = user
+        · subst hou; simp only [if_true] at this ⊢; omega
+        · rw [if_neg (fun e => hou e.symm)] at this; rw [if_neg hou]; omega)
+      refine ⟨t, fun o => ?_⟩
+      rw [e o]; simp only [paySum]; split <;> omega
+    · rw [if_pos ho] at h2
+      obtain ⟨⟨t, rfl⟩, e⟩ := ih (Y := fun o => Y o + (if o = user then a else 0)) h2 (by
+        intro o
+        show ((v.dec att.owner a).inc user a).userTotal o = _ + payOwned v.attrs o rest
+        rw [inc_dec_total v a o ho]
+        have h1 := hY o
+        have h2 := hY user
+        have h3 := hY att.owner
+        rw [if_neg ho] at h2
+        simp only [if_true] at h3
+        by_cases hou : o = user
+        · subst hou; simp only [if_true]; omega
+        · by_cases hoo : o = att.owner
+          · subst hoo; simp only [hou, if_false, if_true]; omega
+          · rw [if_neg (fun e => hoo e.symm)] at h1
+            simp only [hou, hoo, if_false]; omega)
+      refine ⟨⟨t, rfl⟩, fun o => ?_⟩
+      rw [e o]; simp only [paySum]; split <;> omega
+
+theorem InvA.check {v v1 : PV} {Y : Nat → Nat} {user : Nat} {l : List (Nat × Nat)}
+    (hI : InvA v (fun o => Y o + payOwned v.attrs o l)) (h : v.check user l = some v1) :
+    InvA v1 (fun o => Y o + (if o = user then paySum l else 0)) ∧
+      ∃ t, v1 = { v with userTotal := t } := by
+  obtain ⟨⟨t, rfl⟩, e⟩ := check_total l (Y := fun o => v.ownedBy o + Y o) h
+    (fun o => by rw [hI.own o]; omega)
+  exact ⟨⟨hI.nodup, hI.dom, hI.fresh, fun o => by rw [e o]; show _ = v.ownedBy o + _; omega⟩, t, rfl⟩
+
+/-- replacing the totals (and the supply): only the `own` clause has to be re-established -/
+theorem InvA.setTotal {v : PV} {X X' : Nat → Nat} (hI : InvA v X) (t : Nat → Nat) (sp : Nat)
+    (ht : ∀ o, t o = v.ownedBy o + X' o) : InvA { v with userTotal := t, supply := sp } X' :=
+  ⟨hI.nodup, hI.dom, hI.fresh, ht⟩
+
+/-! ### creating a token -/
+
+def bump (v : PV) (a : Attr) : PV :=
+  { v with lastNonce := v.lastNonce + 1, attrs := upd v.attrs (v.lastNonce + 1) (some a) }
+
+def create (v : PV) (dst : Nat) (a : Attr) : PV :=
+  { v with lastNonce := v.lastNonce + 1, attrs := upd v.attrs (v.lastNonce + 1) (some a)
+           hold := upd v.hold dst (upd (v.hold dst) (v.lastNonce + 1)
+             (v.hold dst (v.lastNonce + 1) + a.amt)) }
+
+theorem create_eq (v : PV) (dst : Nat) (a : Attr) :
+    v.create dst a = (v.bump a).setHold dst (v.lastNonce + 1)
+      ((v.bump a).hold dst (v.lastNonce + 1) + a.amt) := rfl
+
+theorem heldBy_fresh {v : PV} {X : Nat → Nat} (hI : InvA v X) {n : Nat} (hn : v.lastNonce < n) :
+    v.heldBy n = 0 := by
+  unfold heldBy
+  apply sum_map_zero
+  intro u _
+  by_contra hne
+  have := (hI.dom u n hne).2.1
+  omega
+
+theorem InvA.bump {v : PV} {X : Nat → Nat} (hI : InvA v X) (a : Attr) :
+    InvA (v.bump a) X ∧ (v.bump a).totalHeld = v.totalHeld := by
+  have hz := heldBy_fresh hI (Nat.lt_succ_self v.lastNonce)
+  have hH : ∀ m, (v.bump a).heldBy m = v.heldBy m := fun _ => rfl
+  refine ⟨⟨hI.nodup, ?_, ?_, ?_⟩, ?_⟩
+  · intro u n hne
+    obtain ⟨h1, h2, h3⟩ := hI.dom u n hne
+    refine ⟨h1, Nat.le_succ_of_le h2, ?_⟩
+    show (upd v.attrs (v.lastNonce + 1) (some a) n).isSome = true
+    rw [upd_other _ _ (by omega)]; exact h3
+  · intro n hn
+    show upd v.attrs (v.lastNonce + 1) (some a) n = none
+    have hn' : v.lastNonce + 1 < n := hn
+    rw [upd_other _ _ (by omega)]; exact hI.fresh n (by omega)
+  · intro o
+    show v.userTotal o = _
+    rw [hI.own o]
+    congr 1
+    unfold ownedBy
+    show _ = ((List.range (v.lastNonce + 1 + 1)).map _).sum
+    rw [List.range_succ (n := v.lastNonce + 1), List.map_append, List.sum_append]
+    simp only [List.map_cons, List.map_nil, List.sum_cons, List.sum_nil, hH, hz, ite_self, Nat.add_zero]
+    show ((List.range (v.lastNonce + 1)).map _).sum = _
+    congr 1
+    apply List.map_congr_left
+    intro m hm
+    have hm' : m ≠ v.lastNonce + 1 := by have := List.mem_range.mp hm; omega
+    have : (v.bump a).ownerOf m = v.ownerOf m := by
+      show (upd v.attrs (v.lastNonce + 1) (some a) m).map _ = _
+      rw [upd_other _ _ hm']; rfl
+    rw [this]
+  · unfold totalHeld
+    show ((List.range (v.lastNonce + 1 + 1)).map _).sum = ((List.range (v.lastNonce + 1)).map _).sum
+    rw [List.range_succ (n := v.lastNonce + 1), List.map_append, List.sum_append]
+    simp only [List.map_cons, List.map_nil, List.sum_cons, List.sum_nil, hH, hz, Nat.add_zero]
+    rfl
+
+/-- a new token of amount `a.amt` for `dst` absorbs `a.amt` of its recorded owner's surplus -/
+theorem InvA.create {v : PV} {X X' : Nat → Nat} (hI : InvA v X) {dst : Nat} {a : Attr}
+    (hd : dst ∈ v.users) (hX : ∀ o, X o = X' o + (if a.owner = o then a.amt else 0)) :
+    InvA (v.create dst a) X' ∧ (v.create dst a).totalHeld = v.totalHeld + a.amt := by
+  obtain ⟨A1, T1⟩ := hI.bump a
+  rw [create_eq]
+  obtain ⟨A2, T2⟩ := A1.setHold (X' := X') (c := dst) (n := v.lastNonce + 1) (att := a)
+    (x := (v.bump a).hold dst (v.lastNonce + 1) + a.amt) hd (Nat.le_refl _)
+    (by show upd v.attrs (v.lastNonce + 1) (some a) (v.lastNonce + 1) = _; rw [upd_same])
+    (by intro o; have := hX o
+        by_cases h : a.owner = o <;> simp only [h, if_true, if_false] at this ⊢ <;> omega)
+  exact ⟨A2, by omega⟩
+
 end PV
 
 end Mx.Farm
